@@ -31,6 +31,20 @@ def build_target(tid: str):
     if kind == 'graph':
         shape, idx, mode, share = rest.split(';')
         return lambda: modgraph.build(shape, tuple(int(x) for x in idx.split(',')), mode, share == '1')[0]
+    if kind == 'twin':
+        def fac(k=int(rest)):
+            P = bridge.P
+            from frozendict import frozendict
+            from proof_generation.proof import ProofExp
+            a, b = P.Symbol('a'), P.Symbol('b')
+            canon = P._and(a, b)                                                                    # keys (0, 1)
+            other = P.Instantiate(P._and.definition, frozendict({1: b})).instantiate({0: a})          # equal, keys (1, 0)
+            inner = (canon, other, P._or(canon, other), P._or(other, canon))[k]
+            ax = P.neg(inner)
+            m = ProofExp(axioms=[ax, P.Implies(ax, a)], claims=[ax])
+            m.add_proof_expression(m.load_axiom(ax))
+            return m
+        return fac
     if kind == 'nested':
         return lambda: modgraph.nested_module(int(rest))
     if kind == 'expr':
@@ -185,7 +199,7 @@ def targets(thorough):
     # plugs given to dynamic_inst as partially applied / re-ordered notation; theories whose axioms contain one another
     for d in (('dinst', ('prop1',), ((0, 14), (1, 4))), ('dinst', ('prop1',), ((1, 14),)), ('dinst', ('prop2',), ((2, 14), (0, 8)))):
         T.append('expr:' + json.dumps(d))
-    T += [f'nested:{k}' for k in range(4)]
+    T += [f'nested:{k}' for k in range(4)] + [f'twin:{k}' for k in range(4)]
     T += ['mm:impreflex-compressed-goal.mm', 'mm:transfer-task-specific.mm', 'mmvars:two', 'mmvars:three', 'mmvars:mixed']
     _, _, thms = mmgen.derivations(mmgen.Features(), 2, 4)
     two_var = [i for i, (t, _, h) in enumerate(thms) if len(__import__('mc.mmref', fromlist=['x']).term_vars(t)) >= 2]
@@ -239,6 +253,10 @@ def main(argv=None) -> int:
     for t in T:
         work.append(({'sequence': [t], 'same_object': 3}, 0))
         work.append(({'sequence': [t], 'same_object': 3}, seeds[-1]))
+    # equal patterns written with differently ordered argument maps, one module after the other in one process
+    tw = [f'twin:{k}' for k in range(4)]
+    for a_, b_ in itertools.permutations(tw, 2):
+        work.append(({'sequence': [a_, b_]}, 0))
     for t in T:
         if t.split(':')[0] in ('shipped', 'graph', 'nested', 'expr'):
             work.append(({'sequence': [t], 'mutate': True}, 0))
